@@ -89,6 +89,74 @@ static void do_str(char *hex)
 	free(s - 8);
 }
 
+/* the number of characters of s as the probe counts them (lead bytes + ASCII), used only to keep the probe away from the
+ * one call of uc_sub that is undefined: exactly one offset beyond the last character */
+static int resolves(char *s, int off)
+{
+	return off < 0 || off <= uc_slen(s);
+}
+
+/* sub <hex> <beg> <end>: uc_sub for any int offsets; "x" when exactly one offset lies beyond the last character (the C text then
+ * compares a pointer into the line with the static "": not called) */
+static void do_sub(char *hex, int b, int e)
+{
+	int len;
+	char *s = pu_unhex(hex, &len, 8, 8);
+	if (resolves(s, b) != resolves(s, e)) {
+		printf("x\n");
+	} else {
+		char *r = uc_sub(s, b, e);
+		pu_hex(r, strlen(r));
+		printf("\n");
+		free(r);
+	}
+	free(s - 8);
+}
+
+/* cat <hex> <hex> */
+static void do_cat(char *h1, char *h2)
+{
+	int l1, l2;
+	char *s1 = pu_unhex(h1, &l1, 8, 8);
+	char *s2 = pu_unhex(h2, &l2, 8, 8);
+	char *r = uc_cat(s1, s2);
+	pu_hex(r, strlen(r));
+	printf("\n");
+	free(r);
+	free(s1 - 8);
+	free(s2 - 8);
+}
+
+/* mem <hex>: uc_dup, uc_lastline, uc_trim (in an array with 8 more bytes behind the terminator: keep=1 when the call changed
+ * nothing but the one terminator it writes), uc_iscomb at every offset */
+static void do_mem(char *hex)
+{
+	int len, i, n, keep = 1;
+	char *s = pu_unhex(hex, &len, 8, 8);
+	char *r = uc_dup(s);
+	char *buf = malloc(len + 9), *old = malloc(len + 9);
+	printf("dup=");
+	pu_hex(r, strlen(r));
+	free(r);
+	printf(" last=%d trim=", (int) (uc_lastline(s) - s));
+	memcpy(buf, s, len + 1);
+	memset(buf + len + 1, 0x5a, 8);
+	memcpy(old, buf, len + 9);
+	uc_trim(buf);
+	n = strlen(buf);
+	pu_hex(buf, n);
+	for (i = 0; i < len + 9; i++)
+		if (i != n && buf[i] != old[i])
+			keep = 0;
+	printf(" keep=%d comb=", keep);
+	for (i = 0; i <= len; i++)
+		printf("%d", uc_iscomb(s + i) != 0);
+	printf("\n");
+	free(buf);
+	free(old);
+	free(s - 8);
+}
+
 int main(void)
 {
 	char *l, *w[8];
@@ -98,6 +166,12 @@ int main(void)
 			do_sweep(atol(w[1]), atol(w[2]));
 		else if (n >= 2 && !strcmp(w[0], "str"))
 			do_str(w[1]);
+		else if (n >= 4 && !strcmp(w[0], "sub"))
+			do_sub(w[1], atoi(w[2]), atoi(w[3]));
+		else if (n >= 3 && !strcmp(w[0], "cat"))
+			do_cat(w[1], w[2]);
+		else if (n >= 2 && !strcmp(w[0], "mem"))
+			do_mem(w[1]);
 		else
 			printf("?\n");
 	}
